@@ -1,9 +1,9 @@
-(* Extraction of the executable model for the correspondence run (ExtrOcamlBasic only). *)
+(* Extraction of the executable model and of the table checker for the correspondence run (ExtrOcamlBasic only). *)
 From Coq Require Import ZArith List.
 From Coq Require Extraction.
 From Coq Require Import ExtrOcamlBasic.
-From C05 Require Import Model.
+From C05 Require Import Model Checker.
 Extraction Language OCaml.
 Cd "ocaml".
-Extraction "model.ml" mk_tables dump_pol2log dump_plus1 op1 op2 op3 arr dot.
+Extraction "model.ml" mk_tables dump_pol2log dump_plus1 op1 op2 op3 arr dot tables_ok.
 Cd "..".
